@@ -282,6 +282,25 @@ fn relation(op: &Op, pre: &NTree, post: &NTree, res: &Res, sa: &str, da: &str, w
     if pre.cwd != post.cwd {
         v.push(("outside-destination-unchanged→cwd".into(), post.cwd.clone()));
     }
+    // directories that had to be created above the destination: a chmod option that selects directories gives them
+    // its mode, any other option leaves them to mirror the directory the source lives in (it never selects them)
+    if !follow {
+        let src_parent_mode = parent_of(&sroot).and_then(|p| pre.nodes.get(&p)).map(|n| n.mode & 0o7777);
+        for (k, n) in &post.nodes {
+            if !pre.nodes.contains_key(k) && is_under(&droot, k) && matches!(n.kind, NKind::Dir) {
+                let expect = dmode.or(src_parent_mode);
+                if let Some(e) = expect {
+                    if n.mode & 0o7777 != e {
+                        v.push((
+                            format!("created-parent-directory-mode-{}→differs", if dmode.is_some() { "selected-option" } else { "mirrors-source-parent" }),
+                            format!("{} mode {:o} expected {:o}", k, n.mode & 0o7777, e),
+                        ));
+                        break;
+                    }
+                }
+            }
+        }
+    }
     v
 }
 
